@@ -77,9 +77,6 @@ func ruleC02Max(c *Ctx) {
 						bad = "outside the interpreted fragment: " + strings.Join(e2.undec, "; ")
 						continue
 					}
-					if len(e2.memo) > 0 {
-						bad = "the result depends on something other than the order of the two values: " + strings.Join(e2.trace, " ")
-					}
 					larger := map[int]string{-1: "old", 1: "arg"}[ord]
 					if ord == 0 {
 						if final != "old" && final != "arg" {
@@ -187,6 +184,13 @@ func ruleC05Plus(c *Ctx) {
 			if v, ok := r.Atoms["[n < 4294967296]"]; ok {
 				over, known = !v, true
 			}
+			// `n >= 2^32-1`: the boundary value maps to itself either way
+			if v, ok := r.Atoms["[n < "+cap32+"]"]; ok {
+				over, known = !v, true
+			}
+			if v, ok := r.Atoms["["+cap32+" <= n]"]; ok {
+				over, known = v, true
+			}
 			if !known || len(r.Atoms) != 1 {
 				bad = "the clamp is not decided by `n > 4294967295` alone (atoms: " + strings.Join(r.Trace, " ") + ")"
 				continue
@@ -227,6 +231,14 @@ func (c *Ctx) judgeWrap(rule, key string, f *ssa.Function, rows []aRow, capS str
 		w, has := r.Atoms["WRAPPED"]
 		res := get(r)
 		if !has {
+			// an operand known to be zero: the sum is the other operand and
+			// cannot wrap
+			zeroOf := func(s string) bool {
+				return r.Atoms["[0 == "+s+"]"] || r.Atoms["["+s+" == 0]"]
+			}
+			if (zeroOf(y) && aShow(res) == x) || (zeroOf(x) && aShow(res) == y) {
+				continue
+			}
 			bad = "a path decides the result without testing for wrap-around: " + r.String()
 			continue
 		}
@@ -508,11 +520,11 @@ func ruleC06Prefix(c *Ctx) {
 	rows = aEnumerate(nil, func(e *aEnv) aVal { return c.aCall(m, []aVal{recv, aSym("R")}, e, 0, nil) })
 	// equivalent spellings of the same conditions (given HasPrefix(R,P))
 	renameAtoms(rows, map[string]string{
-		`["" == R[len(P):]]`:         EQ,
-		`[0 == len(R[len(P):])]`:     EQ,
-		`[len(R[len(P):]) == 0]`:     EQ,
-		`[47 == R[len(P):][0]]`:      SL,
-		`[47 == P[(len(P) - 1)]]`:    HS,
+		`["" == R[len(P):]]`:                EQ,
+		`[0 == len(R[len(P):])]`:            EQ,
+		`[len(R[len(P):]) == 0]`:            EQ,
+		`[47 == R[len(P):][0]]`:             SL,
+		`[47 == P[(len(P) - 1)]]`:           HS,
 		`strings.HasPrefix(R[len(P):],"/")`: SL,
 	})
 	t := checkTable(rows, []string{HS, HP, EQ, SL}, func(a map[string]bool) string {
@@ -575,7 +587,7 @@ func (c *Ctx) itemCell(m *itemModel) *aCell {
 	st := m.T.Underlying().(*types.Struct)
 	s := aStruct{m.T, map[int]aVal{}}
 	for i := 0; i < st.NumFields(); i++ {
-		s.f[i] = aSym("item." + st.Field(i).Name())
+		s.f[i] = aSym("item." + vname(st.Field(i)))
 	}
 	s.f[m.ValueIdx] = aIface{aSym("V"), st.Field(m.ValueIdx).Type()}
 	s.f[m.ScaleIdx] = aSym("S")
@@ -638,7 +650,7 @@ func ruleC05Render(c *Ctx) {
 	}
 	sums := map[string]aSummary{}
 	if fn != nil {
-		sums[fn.String()] = func(fr *aFrame, args []aVal) (aVal, bool) {
+		sums[refQ(fn)] = func(fr *aFrame, args []aVal) (aVal, bool) {
 			return aTuple{aSym("FormatNumber(" + aShow(args[1]) + "," + aShow(args[2]) + ")#0"), aSym("FormatNumber(" + aShow(args[1]) + "," + aShow(args[2]) + ")#1")}, true
 		}
 	}
@@ -671,7 +683,7 @@ func (c *Ctx) checkMarshalValue(mj *ssa.Function) {
 	}
 	var toU *ssa.Call
 	allInstrs(mj, func(in ssa.Instruction) {
-		if call, ok := in.(*ssa.Call); ok && call.Call.IsInvoke() && call.Call.Method.Name() == "ToUint64" {
+		if call, ok := in.(*ssa.Call); ok && call.Call.IsInvoke() && mname(call.Call.Method) == "ToUint64" {
 			if _, p := c.fieldPath(c.resolve(call.Call.Value)); len(p) == 1 {
 				toU = call
 			}
@@ -835,7 +847,6 @@ func ruleC08None(c *Ctx) {
 	_ = sort.Strings
 }
 
-
 // ---------- C06.refgroup ----------
 
 // ruleC06RefGroup: one unrolling of the @REFGROUP filter: a group passes its
@@ -882,7 +893,7 @@ func ruleC06RefGroup(c *Ctx) {
 				inner := aStruct{fv.Type(), map[int]aVal{}}
 				ist := fv.Type().Underlying().(*types.Struct)
 				for j := 0; j < ist.NumFields(); j++ {
-					inner.f[j] = aSym("G." + ist.Field(j).Name())
+					inner.f[j] = aSym("G." + vname(ist.Field(j)))
 				}
 				s.f[i] = inner
 			case isNamed(fv.Type(), modPath+"/git", "ReferenceFilter"):
@@ -890,7 +901,7 @@ func ruleC06RefGroup(c *Ctx) {
 			case isPtrToNamed(fv.Type(), modPath+"/internal/refopts", "refGroup"):
 				s.f[i] = aSym("PARENT")
 			default:
-				s.f[i] = aSym("g." + fv.Name())
+				s.f[i] = aSym("g." + vname(fv))
 			}
 		}
 		return aPtr{&aCell{v: s}}
@@ -919,12 +930,12 @@ func ruleC06RefGroup(c *Ctx) {
 	}
 	matches := c.fn("/internal/refopts", "", "refGroupMatches")
 	sums := map[string]aSummary{
-		passes.String(): func(fr *aFrame, args []aVal) (aVal, bool) {
+		refQ(passes): func(fr *aFrame, args []aVal) (aVal, bool) {
 			return aBool(fr.env.atom("PASSES(" + aShow(args[0]) + ")")), true
 		},
 	}
 	if matches != nil {
-		sums[matches.String()] = func(fr *aFrame, args []aVal) (aVal, bool) {
+		sums[refQ(matches)] = func(fr *aFrame, args []aVal) (aVal, bool) {
 			return aBool(fr.env.atom("MATCHES(" + aShow(args[0]) + ")")), true
 		}
 	}
@@ -954,7 +965,6 @@ func ruleC06RefGroup(c *Ctx) {
 		c.judge("C06.refgroup", "group-match", matches, bad, rows, "own filter present ⇒ exactly its verdict (the filterless case, a union over subgroups, is a loop and not interpreted)")
 	}
 }
-
 
 // renameAtoms maps equivalent spellings of a condition onto the canonical atom.
 func renameAtoms(rows []aRow, alias map[string]string) {
